@@ -31,7 +31,38 @@ var assumeW2 = []string{
 	"a clean batch is evidence, not proof: configurations, histories, interleavings and faults are sampled from a seeded stream",
 }
 
+var assumeDaemon = map[string]string{
+	"C18": "world daemon (galaxy): hostile raw CNI request bodies (bad JSON, missing/malformed env and CNI_ARGS, unknown commands, empty/huge stdin), pods with hostile networks/args/portmapping annotations and odd port protocols, hostile galaxy.json texts (daemon restarts), hostile conf-dir files, corrupted state/port files and stray files in the GC directories; requests run one at a time while the real GC loops tick; oracles: panic with a galaxy frame (C18.panic, key panic@<first galaxy function>), task ending with a held lock (C18.lock-leak), requests blocked forever (C18.wedged), daemon unable to start with the good configuration and no fault (C18.crash-loop), watchdog for tasks that never park; the run ends with an ordinary follow-up request that must be answered. A panic of the plugin-side decoder is a crashed plugin process (counted as probe plugin-decoder-panic), not a daemon verdict",
+	"C19": "world daemon (galaxy, -race build): concurrent ADD/DEL requests of 2-5 containers through the real handler on one shared instance, the real GC loops (started with Run() before the start-time synchronisation, as Galaxy.Start does) and the periodic EnsureBasicRule loop ticking while requests are in flight, container state changes, pod store updates; no crash, no injected environment fault (scripted plugin failures exercise rollback). Per pod kubelet issues one request at a time, as the real kubelet does. The start-time synchronisation is not re-run on a serving instance (the real daemon serves only after it returned). The docker client's helper goroutine and http.Transport are the real ones (their synchronisation is the product's own)",
+}
+
+const ruleC13 = "one evaluation = one generated floatingip configuration (1-4 pools, masks /16../30, gateway at either end of the subnet, VLAN ids 0..4094) and one pod " +
+	"requesting 1-4 IPs through request_ip_range (or none): (a) the REAL galaxy-ipam Filter/Bind path (crdIpam + schedulerplugin over the simulated API server) allocates and writes the " +
+	"k8s.v1.cni.galaxy.io/args annotation, (b) the REAL galaxy daemon passes it through its request handler and argument builder to a fake plugin that decodes CNI_ARGS with the plugins' own " +
+	"cni/ipam.Allocate, (c) the decoded (address, prefix length, gateway, VLAN) list is compared, in order, with the FloatingIP objects stored for the pod and with the generated pool " +
+	"configuration (the model side is the generated configuration only). Scope: there is NO schedule or fault dimension (one task at a time, no faults); the value is the composition of the " +
+	"three real codecs over generated configurations. A run is non-trivial if the pod was bound. distinct_nontrivial = distinct (configuration, request) pairs."
+
 func init() {
+	specs["C13"] = propSpec{World: "c13", Level: "exploration", Quick: 15, Thorough: 300, Rule: ruleC13, Assume: []string{
+		"real code: pkg/ipam/floatingip (configuration decoding, crdIpam allocation), pkg/ipam/schedulerplugin (Filter, Bind, annotation encoder constant.MarshalCniArgs), pkg/galaxy (cni handler, getPod, resolveNetworks, parseExtendedCNIArgs), pkg/api/cniutil (BuildCNIArgs, CmdAdd, delegate invocation), cni/ipam.Allocate and cniutil.IPInfoToResult (plugin-side decoder)",
+		"stubbed: kube-apiserver and listers (simkube), CNI plugin binary (in-process recording runtime that runs the real decoder), file system, iptables, container runtime",
+		"the pod and pool configuration are valid by construction (ranges inside their subnet, pairwise disjoint request lists); pods that galaxy-ipam refuses to bind make no claim and are counted as not-bound",
+		"sampling over configurations; no interleaving or fault is explored because none can influence a pure composition of codecs",
+	}}
+	realVsStub["c13"] = map[string]string{
+		"real":    "pkg/ipam/floatingip, pkg/ipam/schedulerplugin (Filter/Bind), pkg/api/galaxy/constant (annotation codec), pkg/galaxy request path, pkg/api/cniutil, cni/ipam.Allocate",
+		"stub":    "kube-apiserver/listers (simkube), plugin binary (fake runtime running the real decoder), file system, iptables, runtime",
+		"not_run": "everything else (no GC, no port mapping, no policy, no cloud provider)",
+	}
+	// C18 and C19 are registered by specs.go for world ipam; the daemon world serves them too
+	for _, id := range []string{"C18", "C19"} {
+		if sp, ok := specs[id]; ok {
+			sp.More = append(sp.More, "daemon")
+			sp.Assume = append(sp.Assume, assumeDaemon[id])
+			specs[id] = sp
+		}
+	}
 	specs["C12"] = propSpec{World: "daemon", Level: "exploration", Quick: 25, Thorough: 600, Rule: ruleC12, Assume: assumeW2}
 	specs["C14"] = propSpec{World: "daemon", Level: "exploration", Quick: 25, Thorough: 600, Rule: ruleC14, Assume: assumeW2}
 	specs["C17"] = propSpec{World: "daemon", Level: "exploration", Quick: 25, Thorough: 600, Rule: ruleC17, Assume: assumeW2}
